@@ -582,7 +582,7 @@ def _constonly(mg, c, done):
     return None
 
 
-N = {"quick": 700, "thorough": 16000}
+N = {"quick": 1400, "thorough": 16000}
 
 
 def shard_plan(tier):
